@@ -253,8 +253,9 @@ pub fn run() -> Report {
 
 /// "... a function of the data directory and the options only": the same directory and options named in different ways and
 /// run in different process environments. Full product callback (5) x range {whole, -s 1 -e 2} x --verify {off, on} x path
-/// form (absolute / relative / trailing slash / dot components / symbolic links / cwd inside the data directory) x environment
-/// (plain, the verbosity options -v / -vv / -vvv, RAYON_NUM_THREADS unset, a non-English UTF-8 locale with TZ set, logging-related variables, a virtual monotonic clock advancing 4 s / 11 s / 0 s per query, five other hash seeds (iteration order of the std hash maps), directory listings served in reversed / rotated order). The chain contains addresses whose totals exceed 2^53 and consist of one large and seven unit outputs.
+/// form (absolute / relative / trailing slash / dot components / symbolic links / cwd inside the data directory / cwd = dump
+/// folder named "", ".", "./" / names with spaces, quotes, non-ASCII characters) x environment (names that are not UTF-8 are refused by the command-line parser with exit status 2 before anything is read: not a case of this property)
+/// (plain, the verbosity options -v / -vv / -vvv, RAYON_NUM_THREADS unset, a non-English UTF-8 locale with TZ set, logging-related variables, a virtual monotonic clock advancing 4 s / 11 s / 0 s per query, the calendar clock at the epoch / the last 32-bit second / a leap day before midnight / beyond 2106, five other hash seeds (iteration order of the std hash maps), directory listings served in reversed / rotated order). The chain contains addresses whose totals exceed 2^53 and consist of one large and seven unit outputs.
 /// Compared with the absolute-path plain-environment run: exit status, every file of the dump folder, and the
 /// simplestats / opreturn output (log lines that print a path are dropped).
 fn invocation_forms(rep: &mut Report, root: &std::path::Path) {
@@ -298,6 +299,10 @@ fn invocation_forms(rep: &mut Report, root: &std::path::Path) {
         ("virtual clock: 4 s per query", vec![("VERIF_CLOCK_STEP", "4000000000")], 2),
         ("virtual clock: 11 s per query", vec![("VERIF_CLOCK_STEP", "11000000000")], 2),
         ("virtual clock: standing still", vec![("VERIF_CLOCK_STEP", "0")], 2),
+        ("calendar clock: the epoch", vec![("VERIF_REALTIME", "0")], 2),
+        ("calendar clock: 2038-01-19 03:14:07", vec![("VERIF_REALTIME", "2147483647"), ("TZ", "America/St_Johns")], 2),
+        ("calendar clock: leap day, a second before midnight", vec![("VERIF_REALTIME", "1709251199"), ("TZ", "UTC")], 2),
+        ("calendar clock: year 2106 and beyond", vec![("VERIF_REALTIME", "4294967296")], 2),
         ("hash seed 2", vec![("VERIF_DETRAND", "2")], 2),
         ("hash seed 6", vec![("VERIF_DETRAND", "6")], 2),
         ("hash seed 9", vec![("VERIF_DETRAND", "9")], 2),
@@ -320,7 +325,7 @@ fn invocation_forms(rep: &mut Report, root: &std::path::Path) {
             if r0.code != Some(0) {
                 acc.count("note:reference-invocation-failed", 1);
             }
-            for form in 0..9u8 {
+            for form in 0..10u8 {
                 for (ename, evars, threads) in &envs {
                     if form == 0 && *ename == "plain" {
                         continue;
